@@ -225,3 +225,67 @@ func c18ClientConfig(target, certName string) (*x509.CertPool, *tls.Config) {
 
 var _ = ldap.ScopeBaseObject
 var _ = strings.TrimSpace
+
+// c07tlsstall <how>: on a TLS listener one client connects and stalls before / in the middle of
+// its handshake (it stays connected); connections opened afterwards must still be accepted,
+// complete their handshake and be served, and the connection that was there before keeps working.
+func init() { runners["c07tlsstall"] = runC07TLSStall }
+
+func runC07TLSStall(t *Toks) string {
+	how := t.Next()
+	wp, err := startWorker("recovery=1 onclose=1 unbind=1 tls=tls", false)
+	if err != nil {
+		return "HARNESS-ERROR " + err.Error()
+	}
+	defer wp.kill()
+	for dl := time.Now().Add(5 * time.Second); time.Now().Before(dl); time.Sleep(2 * time.Millisecond) {
+		if a, ok := wp.ask("ready", "ready", time.Second); ok && a[0] == "true" {
+			break
+		}
+	}
+	_, cli := c18ClientConfig("server", "client")
+	search := func(c net.Conn, id int64) bool {
+		wp.ask(fmt.Sprintf("script %d w", id), "script-ok", 2*time.Second)
+		if _, err := c.Write(plainFrame("search", id)); err != nil {
+			return false
+		}
+		return gotResponse(c, 3*time.Second)
+	}
+	old, err := tls.DialWithDialer(&net.Dialer{Timeout: 3 * time.Second}, "tcp", wp.addr, cli)
+	if err != nil {
+		return "HARNESS-ERROR first dial: " + err.Error()
+	}
+	defer old.Close()
+	if !search(old, 8001) {
+		return "HARNESS-ERROR first connection not served"
+	}
+	// the stalling client
+	st, err := net.DialTimeout("tcp", wp.addr, 3*time.Second)
+	if err != nil {
+		return "HARNESS-ERROR stall dial"
+	}
+	defer st.Close()
+	if how == "partial" {
+		_, _ = st.Write([]byte{0x16, 0x03, 0x01})
+	}
+	time.Sleep(100 * time.Millisecond)
+	oldOK := search(old, 8002)
+	served := 0
+	for i := 0; i < 2; i++ {
+		c, err := tls.DialWithDialer(&net.Dialer{Timeout: 3 * time.Second}, "tcp", wp.addr, cli)
+		if err != nil {
+			continue
+		}
+		if search(c, int64(8100+i)) {
+			served++
+		}
+		c.Close()
+	}
+	if !oldOK {
+		return "SPECFAIL the connection that was already open is no longer served while another client stalls in its TLS handshake"
+	}
+	if served != 2 {
+		return fmt.Sprintf("SPECFAIL %d of 2 connections opened while another client stalls in its TLS handshake were served", served)
+	}
+	return "OK served=2 old=1"
+}
